@@ -28,6 +28,102 @@ def known_functions() -> set:
         return {ln.strip() for ln in fh if ln.strip() and not ln.startswith("#")}
 
 
+def _single_exit(fn: ast.FunctionDef) -> Optional[ast.FunctionDef]:
+    """a copy of fn in which every `return E` that stands in TAIL position (last statement of the body, or of a branch of an
+    if whose continuation is the tail; a guard `if c: ...return` followed by more statements counts, the rest becoming its
+    else) is replaced by assignments to result locals, followed by ONE final return of those locals.  None when some return
+    is not in tail position (inside a loop, a try, a with) or the returns do not all have the same tuple arity."""
+    body = [s for s in fn.body if not (isinstance(s, ast.Expr) and isinstance(s.value, ast.Constant))]
+    rets = [x for x in ast.walk(fn) if isinstance(x, ast.Return)]
+    if len(rets) <= 1 and (not rets or (body and body[-1] is rets[0])):
+        return fn
+    arity = None
+    for r in rets:
+        k = len(r.value.elts) if isinstance(r.value, ast.Tuple) else 1
+        if r.value is None:
+            k = 1
+        if arity is None:
+            arity = k
+        elif arity != k:
+            return None
+    names = [f"rv{i}_" for i in range(arity)]
+    ok = [True]
+
+    def has_return(stmts):
+        return any(isinstance(x, ast.Return) for s_ in stmts for x in ast.walk(s_))
+
+    def assign(r):
+        v = r.value if r.value is not None else ast.Constant(value=None)
+        vals = list(v.elts) if isinstance(v, ast.Tuple) and arity > 1 else [v]
+        return [ast.copy_location(ast.Assign(targets=[ast.Name(id=n, ctx=ast.Store())], value=copy.deepcopy(e)), r) for n, e in zip(names, vals)]
+
+    def ends(stmts):
+        return bool(stmts) and isinstance(stmts[-1], (ast.Return, ast.Raise))
+
+    def conv(stmts):
+        """stmts in tail position -> equivalent statements without return"""
+        out = []
+        for i, s_ in enumerate(stmts):
+            last = i == len(stmts) - 1
+            if isinstance(s_, ast.Return):
+                if not last:
+                    ok[0] = False
+                out.extend(assign(s_))
+                return out
+            if isinstance(s_, ast.If) and (has_return(s_.body) or has_return(s_.orelse)):
+                rest = stmts[i + 1:]
+                new = copy.copy(s_)
+                if last:
+                    new.body, new.orelse = conv(s_.body), (conv(s_.orelse) if s_.orelse else [])
+                    if not s_.orelse and not ends(s_.body):
+                        ok[0] = False
+                    out.append(new)
+                    if not s_.orelse:
+                        # if c: return a   as the very last statement: falling through returns None
+                        new.orelse = [ast.copy_location(ast.Assign(targets=[ast.Name(id=n, ctx=ast.Store())], value=ast.Constant(value=None)), s_) for n in names]
+                    return out
+                # a guard followed by more statements: the rest runs only when the guard did not leave
+                if ends(s_.body) and not s_.orelse:
+                    new.body, new.orelse = conv(s_.body), conv(rest)
+                    out.append(new)
+                    return out
+                if s_.orelse and ends(s_.orelse) and not has_return(s_.body):
+                    new.body, new.orelse = s_.body + [], conv(s_.orelse)
+                    new.body = list(s_.body) + conv(rest)
+                    out.append(new)
+                    return out
+                if ends(s_.body) and s_.orelse and ends(s_.orelse):
+                    if rest:
+                        ok[0] = False
+                    new.body, new.orelse = conv(s_.body), conv(s_.orelse)
+                    out.append(new)
+                    return out
+                ok[0] = False
+                return out
+            if has_return([s_]):
+                ok[0] = False  # a return inside a loop / try / with
+                return out
+            out.append(s_)
+        # fell off the end of this tail: the function returns None here
+        if not (out and isinstance(out[-1], ast.Raise)):
+            out.extend(ast.Assign(targets=[ast.Name(id=n, ctx=ast.Store())], value=ast.Constant(value=None)) for n in names)
+        return out
+
+    new_body = conv(copy.deepcopy(body))
+    if not ok[0]:
+        return None
+    final = ast.Return(value=ast.Tuple(elts=[ast.Name(id=n, ctx=ast.Load()) for n in names], ctx=ast.Load()) if arity > 1 else ast.Name(id=names[0], ctx=ast.Load()))
+    g = copy.copy(fn)
+    g.body = new_body + [final]
+    for x in ast.walk(g):
+        if not hasattr(x, "lineno"):
+            x.lineno = fn.lineno
+            x.col_offset = 0
+            x.end_lineno = fn.lineno
+            x.end_col_offset = 0
+    return g
+
+
 def _inlinable(fn: ast.FunctionDef) -> bool:
     a = fn.args
     if a.vararg or a.kwarg or fn.decorator_list and any(not (isinstance(d, ast.Name) and d.id == "staticmethod") for d in fn.decorator_list):
@@ -236,7 +332,13 @@ def inline_unknown_helpers(trees: Dict[str, ast.Module], known: Optional[set] = 
                 elif isinstance(b, ast.ImportFrom) and b.module:
                     for al in b.names:
                         imports[mod][al.asname or al.name] = f"{b.module}.{al.name}"
-        cand = {q: f for q, f in funcs.items() if q not in known and _inlinable(f)}
+        cand = {}
+        for q, f in funcs.items():
+            if q in known:
+                continue
+            g = _single_exit(f)
+            if g is not None and _inlinable(g):
+                cand[q] = g
         if not cand:
             break
         done = 0
@@ -273,7 +375,7 @@ def inline_unknown_helpers(trees: Dict[str, ast.Module], known: Optional[set] = 
                 if isinstance(s, (ast.Assign, ast.AugAssign, ast.Return, ast.Expr)) and isinstance(getattr(s, "value", None), ast.Call):
                     call = s.value
                 r = resolve(mod, cls, call) if call is not None else None
-                if r is None or cand[r[0]] is caller:
+                if r is None or cand[r[0]] is caller or cand[r[0]].name == caller.name and funcs.get(r[0]) is caller:
                     out.append(s)
                     continue
                 q, is_m = r
